@@ -380,12 +380,8 @@ def r3(prog, run):
                 if bo and bo[0] == '==' and any(f.nodes[f.skip(x)].get('f') in {r[0] for r in retry_fields} for x in bo[1:]):
                     return (False,)
             return None
-        exits = {}
-        for case in cfgx.flag_cases(sd, lambda vv: cfgx.Evaluator(sd, {}, var_values=vv, custom=custom)):
-            ev = cfgx.Evaluator(sd, {}, var_values=case, custom=custom)
-            ex, _ = cfgx.explore(sd, (), transfer, lambda f, c, st, ev=ev: ev.ev(c, st))
-            for k_, v_ in ex.items():
-                exits.setdefault(k_, v_)
+        ev = cfgx.Evaluator(sd, {}, custom=custom)
+        exits, _ = cfgx.explore(sd, (), transfer, lambda f, c, st: ev.ev(c, st))
         run.paths += len(exits)
         for st, path in exits.items():
             run.instance(rid)
